@@ -19,6 +19,10 @@
 //!                                  fails at position k (seeking like std::io::Cursor: never an error,
 //!                                  also past the end)
 //!       → ok(<next header>)|err(io)|err(eof);pos=<final position>;post=<read/seek calls after the failure>
+//!   io.skip.ext.sf / io.skip.all.sf <next_header> <hex> <k> <j>   the same on a reader whose j-th call of
+//!                                  `seek` (0-based, counted over the whole run) fails with an injected error
+//!                                  and leaves the position where it was
+//!       → ok(<next header>)|err(io)|err(eof)|err(seek);pos=<final position>;seeks=<seek calls made>;post=<read/seek calls after the first failure>
 #![allow(unused_imports, dead_code)]
 use crate::util::*;
 use etherparse::err::LenError;
@@ -32,6 +36,13 @@ const INJECTED: &str = "injected";
 
 fn injected() -> std::io::Error {
     std::io::Error::new(std::io::ErrorKind::Other, INJECTED)
+}
+
+const INJECTED_SEEK: &str = "injected-seek";
+
+/// the error of a failing `seek`: the same kind as the injected read error, its own text
+fn injected_seek() -> std::io::Error {
+    std::io::Error::new(std::io::ErrorKind::Other, INJECTED_SEEK)
 }
 
 /// accepts exactly `budget` bytes in total (partial writes allowed), then every non-empty write
@@ -134,11 +145,16 @@ impl Seek for FailReader {
 /// `Read + Seek` over `data`: positions `>= min(fail_at, data.len())` cannot be read — the read
 /// returns the injected error if the reader was told to fail inside the data (`fail_at <=
 /// data.len()`), otherwise end of file (`Ok(0)`).  `seek` behaves like `std::io::Cursor`: the
-/// position simply moves (also behind the end), no error.
+/// position simply moves (also behind the end), no error — except for the call with index
+/// `seek_fail` (0-based count of all `seek` calls, `None`: never), which returns the injected seek
+/// error and leaves the position where it was.  `post` counts every `read` / `seek` call made after
+/// the first failure of either kind.
 struct SeekFailReader {
     data: Vec<u8>,
     pos: u64,
     fail_at: usize,
+    seek_fail: Option<usize>,
+    seeks: usize,
     failed: bool,
     post: usize,
 }
@@ -149,9 +165,16 @@ impl SeekFailReader {
             data,
             pos: 0,
             fail_at: k,
+            seek_fail: None,
+            seeks: 0,
             failed: false,
             post: 0,
         }
+    }
+    fn with_seek_failure(data: Vec<u8>, k: usize, j: usize) -> Self {
+        let mut r = SeekFailReader::new(data, k);
+        r.seek_fail = Some(j);
+        r
     }
 }
 
@@ -184,6 +207,12 @@ impl Seek for SeekFailReader {
     fn seek(&mut self, style: SeekFrom) -> std::io::Result<u64> {
         if self.failed {
             self.post += 1;
+        }
+        let index = self.seeks;
+        self.seeks += 1;
+        if self.seek_fail == Some(index) {
+            self.failed = true;
+            return Err(injected_seek());
         }
         // std::io::Cursor::seek
         let (base, offset) = match style {
@@ -220,6 +249,28 @@ fn skip_line(
                 Err(e) => io_err(&e),
             };
             Some(format!("{};pos={};post={}", rs, r.pos, r.post))
+        }
+        _ => None,
+    }
+}
+
+/// `io.skip.*.sf`: the same with a reader whose `j`-th call of `seek` fails
+fn skip_line_sf(
+    a: &[&str],
+    f: impl FnOnce(&mut SeekFailReader, IpNumber) -> Result<IpNumber, std::io::Error>,
+) -> Option<String> {
+    match a {
+        [nh, d, k, j] => {
+            let nh: u8 = num(nh)?;
+            let mut r = SeekFailReader::with_seek_failure(hex(d)?, num(k)?, num(j)?);
+            let rs = match f(&mut r, IpNumber(nh)) {
+                Ok(n) => format!("ok({})", n.0),
+                Err(e) => io_err(&e),
+            };
+            Some(format!(
+                "{};pos={};seeks={};post={}",
+                rs, r.pos, r.seeks, r.post
+            ))
         }
         _ => None,
     }
@@ -275,6 +326,8 @@ fn skip_twins(all: bool, a: &[&str], reader_line: &str) -> Option<String> {
 fn io_err(e: &std::io::Error) -> String {
     if e.kind() == std::io::ErrorKind::Other && e.to_string() == INJECTED {
         "err(io)".to_string()
+    } else if e.kind() == std::io::ErrorKind::Other && e.to_string() == INJECTED_SEEK {
+        "err(seek)".to_string()
     } else if e.kind() == std::io::ErrorKind::UnexpectedEof {
         "err(eof)".to_string()
     } else {
@@ -1528,6 +1581,8 @@ pub fn run(op: &str, a: &[&str]) -> Option<String> {
             let l = skip_line(a, |r, n| Ipv6Header::skip_all_header_extensions(r, n))?;
             skip_twins(true, a, &l)?
         }
+        "io.skip.ext.sf" => skip_line_sf(a, |r, n| Ipv6Header::skip_header_extension(r, n))?,
+        "io.skip.all.sf" => skip_line_sf(a, |r, n| Ipv6Header::skip_all_header_extensions(r, n))?,
         _ => return None,
     })
 }
